@@ -28,8 +28,6 @@ Local Open Scope Z_scope.
 
 Inductive draw := DInt (lo hi v : Z) | DBool (v : bool).
 
-(* facultative<unsigned>: the empty value is numeric_limits<unsigned>::max() *)
-Definition sentinel : Z := 4294967295.
 
 (* ------------------------------------------------------------------ lists *)
 Section Lists.
@@ -328,15 +326,20 @@ Definition target_q (s : Z) : Z :=
 Inductive vs_kind := VsAsIs | VsDss | VsHoldout.
 Definition vs_eqb (a b : vs_kind) : bool :=
   match a, b with VsAsIs, VsAsIs | VsDss, VsDss | VsHoldout, VsHoldout => true | _, _ => false end.
-Definition dflt_dss : Z := 1.          (* environment::init() *)
-Definition dflt_perc : Z := 20.
+Definition dflt_dss : Z := gen_dflt_dss.          (* environment::init(), regenerated *)
+Definition dflt_perc : Z := gen_dflt_perc.
 
-(* [same_type vs k] models the typeid comparison.  Repaired tree:
-   typeid( *this->vs_ ) == typeid(K), i.e. the dynamic type. *)
-Definition tune_validation (same_type : vs_kind -> vs_kind -> bool) (vs : vs_kind) (user_dss user_perc : Z) : Z * Z :=
-  ((if (user_dss =? sentinel) && same_type vs VsDss then dflt_dss else user_dss),
-   (if (user_perc =? sentinel) && same_type vs VsHoldout then dflt_perc else user_perc)).
-Definition tune_fixed := tune_validation vs_eqb.
+(* [same_type vs k] models the typeid comparison, [opened u] the test "left open by the user" *)
+Definition tune_validation (opened_d opened_p : Z -> bool) (same_type : vs_kind -> vs_kind -> bool)
+  (dd dp : Z) (vs : vs_kind) (user_dss user_perc : Z) : Z * Z :=
+  ((if opened_d user_dss && same_type vs VsDss then dd else user_dss),
+   (if opened_p user_perc && same_type vs VsHoldout then dp else user_perc)).
+(* the tree under test: guards, kind of typeid comparison and defaults are regenerated from
+   search.tcc / environment.cc (repaired tree: !has_value(), typeid( *this->vs_ )) *)
+Definition tune_fixed (vs : vs_kind) (user_dss user_perc : Z) : Z * Z :=
+  ((if gen_tune_dss_open user_dss && (gen_tune_dss_dynamic_typeid && vs_eqb vs VsDss) then dflt_dss else user_dss),
+   (if gen_tune_perc_open user_perc && (gen_tune_perc_dynamic_typeid && vs_eqb vs VsHoldout) then dflt_perc
+    else user_perc)).
 (* pinned tree: typeid(this->vs_.get()) == typeid(K) compares the type
    `validation_strategy *` with a class type: never equal *)
-Definition tune_pinned := tune_validation (fun _ _ => false).
+Definition tune_pinned := tune_validation (fun u => u =? sentinel) (fun u => u =? sentinel) (fun _ _ => false) 1 20.
